@@ -93,7 +93,7 @@ def run_case(case):
                protos=flatz(p) if not real else flat(p), pcplx=not real, fields=fields,
                mean_kind='gaussian' if kind in ('gmm', 'gcacgmm') else ('vmf' if kind in ('vmfmm', 'vmfcacgmm') else 'none'),
                mleads=[[f] for f in range(F)] if not integ else [[]], mprotos=flat(p if not integ else pm) if (real or integ) else dict(shape=[], data=[]),
-               z=dict(shape=[F, N, D], data=[]), strict=bool(case['iterations'] >= 2 or case['blur'] <= 0.1), fp=fp, key=key)
+               z=dict(shape=[F, N, D], data=[]), strict=bool(case['iterations'] >= 5 or case['blur'] <= 0.02), fp=fp, key=key)
     if integ:
         # the spectral prototypes have no leading axis: index mprotos by <<k, a>> only
         rec['mleads'] = [[]]
